@@ -151,6 +151,7 @@ typedef struct hx_obs {
     int final_in_status, final_out_status;
     int final_susp[2];          /* driver: direction suspended by DATA_OTHER at the end            */
     uint64_t work_total;        /* cost flavour: metered work of all data calls                    */
+    uint64_t work_teardown;     /* cost flavour: metered work of htp_connp_destroy_all              */
     double work_call_max;       /* max over calls of work / (len + bytes buffered before the call + 64) */
     uint32_t work_call_max_len, work_call_max_buffered; uint64_t work_call_max_work;
 } hx_obs;
